@@ -31,6 +31,14 @@ func GenSeq(t *rapid.T) *SeqCase {
 	for i := 0; i < nh; i++ {
 		c.Handlers = append(c.Handlers, genH(t, 3))
 	}
+	// a third of the histories let Once handlers arm a successor while they run
+	if rapid.IntRange(0, 2).Draw(t, "arming") == 0 {
+		for i := range c.Handlers {
+			if c.Handlers[i].Once && rapid.Bool().Draw(t, "arms") {
+				c.Handlers[i].Arms = 1 + rapid.IntRange(0, nh-1).Draw(t, "armsWhich")
+			}
+		}
+	}
 	subbed := 0
 	n := rapid.IntRange(1, 25).Draw(t, "nsteps")
 	if nh > 6 {
